@@ -90,7 +90,7 @@ def real_exec(line: str) -> str:
     try:
         return _exec(op, kv)
     except BaseException as e:  # noqa
-        if isinstance(e, (KeyboardInterrupt, SystemExit, MemoryError)):
+        if isinstance(e, (KeyboardInterrupt, SystemExit)) or type(e).__name__ == "_OpTimeout":
             raise
         return C.err(e)
 
@@ -165,6 +165,14 @@ def _exec(op, kv):
         n = correlate(r, np.ones(len(q)), mode='valid', method='fft') + np.sum(q)
         assert np.max(np.abs(c - np.rint(c))) < 1e-6 and np.max(np.abs(n - np.rint(n))) < 1e-6
         return ",".join(str(int(x)) for x in np.rint(c)) + " N=" + ",".join(str(int(x)) for x in np.rint(n))
+    if op == "TOPN":
+        import numpy as np
+        from src.correlation.optical_map import CorrelationResult
+        bins = np.array(ints(kv.get("B", "")), dtype=int)
+        hs = np.array(ints(kv.get("H", "")), dtype=float)
+        props = {"peak_heights": hs, "left_ips": bins.astype(float), "right_ips": bins.astype(float)}
+        peaks = CorrelationResult.createPeaks(bins, props, int(kv["res"]), int(kv["start"]), 0., int(kv["count"]))
+        return ",".join(f"{num(p.position)}:{num(p.height)}" for p in sorted(peaks, key=lambda p: p.position))
     if op == "TOBP":
         import numpy as np
         return num(toRelativeGenomicPositions(np.array([int(kv["bin"])]), int(kv["res"]), int(kv["start"]))[0])
@@ -194,7 +202,7 @@ def _exec(op, kv):
     if op == "JOINROWS":
         P = params(kv)
         j = C.parse_row_t(kv["A"], P).resolve(C.parse_row_t(kv["B"], P))
-        return "None" if j is None else C.show_row(j)
+        return "None" if j is None else C.show_row(j) + " cigar=" + j.cigarString
     if op == "RESOLVEROWS":
         P = params(kv)
         rows = [C.parse_row_t(t, P) for t in kv.get("ROWS", "").split("^") if t]
